@@ -44,7 +44,7 @@ def self_checks(ctx, box):
 def select(ctx, cases):
     """quick: every tuple of viewing conditions once, the partial kind rotating with the tuple and the seed (a sixth of
     the lattice); thorough: the whole lattice. Order shuffled by the seed (the harness cycles its colours along it)."""
-    rows = [json.loads(c) for c in cases]
+    rows = sorted((json.loads(c) for c in cases), key=lambda r: r[0])      # TLC's workers emit in no particular order
     if ctx.quick:
         rows = [r for r in rows if KINDS[(r[0] + ctx.seed) % 6] == r[13]]
     random.Random(ctx.seed).shuffle(rows)
